@@ -34,10 +34,13 @@ func (f *Flat) WithoutEdges(drop func(from *GNode, e Edge) bool) *Flat {
 }
 
 type step struct {
-	Name      string
-	Keys      []string
-	Tolerated []string // error states of this step in which the chain may continue
-	EarlyExit []string // error states of this step in which a success return without the later steps is accepted
+	Name string
+	Keys []string
+	// Last marks the final step of a chain that runs once per element of a loop: the obligations against the
+	// function's success return do not apply (the function returns after the loop, whatever single elements did)
+	LastInLoop bool
+	Tolerated  []string // error states of this step in which the chain may continue
+	EarlyExit  []string // error states of this step in which a success return without the later steps is accepted
 }
 
 // successReturns lists the return nodes whose error result is the nil identifier.
@@ -133,6 +136,9 @@ func (f *Flat) CheckChain(r *Report, rule string, fi *FuncInfo, steps []step) bo
 		}
 	}
 	for i := range steps {
+		if i+1 == len(steps) && steps[i].LastInLoop {
+			break
+		}
 		var next []int
 		nextName := "success return"
 		if i+1 < len(steps) {
